@@ -38,11 +38,12 @@ CONSTANTS OurChains            \* chain names owned by Felix by name (configured
 VARIABLES cfg,                 \* [mode: "insert"|"append", ownsAll: BOOLEAN, kchains: set of kernel/base chains]
           desired,             \* [chains: name :-> Seq(body), force: set of names (ForceProgramming),
                                \*  ins: kchain -> Seq(body), app: kchain -> Seq(body)]
-          kernel,              \* name :-> Seq([h, id, tgt])
+          kernel,              \* name :-> Seq([h, id, tgt])     (a tgt "@m" = verdict-map lookup in map m: `vmap @m`)
+          kmaps,               \* nftables verdict maps in the kernel: name :-> set of [k, tgt] (interface k -> goto chain tgt)
           belief,              \* [stale: BOOLEAN, due: BOOLEAN]
           phase,               \* [inApply, readFailed, envFail, notified, consistent: BOOLEAN] (the last four: about this Apply)
           known                \* {<<chain, content>>}: renderings seen at the end of converged applies
-vars == <<cfg, desired, kernel, belief, phase, known>>
+vars == <<cfg, desired, kernel, kmaps, belief, phase, known>>
 
 \* ---- helpers ---------------------------------------------------------------------------------
 Body(r) == [id |-> r.id, tgt |-> r.tgt]
@@ -55,16 +56,19 @@ ForeignRules(s) == SelectSeq(s, LAMBDA r : ~OwnedRule(r))
 Drop(f, x) == [c \in DOMAIN f \ {x} |-> f[c]]
 Put(f, x, v) == [c \in DOMAIN f \cup {x} |-> IF c = x THEN v ELSE f[c]]
 Get(f, x) == IF x \in DOMAIN f THEN f[x] ELSE <<>>
-Targets(s) == { s[i].tgt : i \in 1..Len(s) } \ {""}
+IsMapRef(t) == Len(t) > 0 /\ SubSeq(t, 1, 1) = "@"
+Targets(s) == { s[i].tgt : i \in 1..Len(s) } \ ({""} \cup { s[i].tgt : i \in { j \in 1..Len(s) : IsMapRef(s[j].tgt) } })
+MapRefs(s) == { s[i].tgt : i \in { j \in 1..Len(s) : IsMapRef(s[j].tgt) } }
+MapTargets(d) == UNION { { m.tgt : m \in d.maps[n] } : n \in DOMAIN d.maps }
 
-EmptyDesired == [chains |-> [c \in {} |-> <<>>], force |-> {},
+EmptyDesired == [chains |-> [c \in {} |-> <<>>], force |-> {}, maps |-> [c \in {} |-> {}],
                  ins |-> [k \in cfg.kchains |-> <<>>], app |-> [k \in cfg.kchains |-> <<>>]]
 
 \* chains Felix programs (table.go: a chain is programmed if and only if it is referenced): reachable through
 \* jumps from the hook rules or from a chain with ForceProgramming ("a force-programmed chain refers to
 \* itself"; nftables.Table has no ForceProgramming, there the flag is ignored)
 HookTargets(d) == UNION { Targets(d.ins[k]) \cup Targets(d.app[k]) : k \in DOMAIN d.ins }
-                  \cup (IF cfg.ownsAll THEN {} ELSE d.force \cap DOMAIN d.chains)
+                  \cup (IF cfg.ownsAll THEN MapTargets(d) ELSE d.force \cap DOMAIN d.chains)
 RECURSIVE Reach(_, _)
 Reach(d, S) ==
     LET N == S \cup UNION { Targets(d.chains[c]) : c \in S \cap DOMAIN d.chains }
@@ -72,7 +76,10 @@ Reach(d, S) ==
 Ref(d) == Reach(d, HookTargets(d)) \cap DOMAIN d.chains
 \* environment assumption at Apply (table.go: "consistent (i.e. there are no references to
 \* nonexistent chains) by the time Apply() is called")
-Consistent(d) == Reach(d, HookTargets(d)) \subseteq DOMAIN d.chains
+\* (and a rule only looks up a verdict map that the caller has defined)
+AllMapRefs(d) == UNION { MapRefs(d.ins[k]) \cup MapRefs(d.app[k]) : k \in DOMAIN d.ins } \cup UNION { MapRefs(d.chains[c]) : c \in DOMAIN d.chains }
+Consistent(d) == /\ Reach(d, HookTargets(d)) \subseteq DOMAIN d.chains
+                 /\ AllMapRefs(d) \subseteq { "@" \o n : n \in DOMAIN d.maps }
 
 \* ---- the property -----------------------------------------------------------------------------
 FelixChainOK(k, d, c) == c \in DOMAIN k /\ Bodies(k[c]) = d.chains[c] /\ AllMarked(k[c])
@@ -113,6 +120,10 @@ Converged(k, d) ==
           ELSE HookChainOK(k, d, c)                                                 \* no stale hook rule
     /\ \A c \in cfg.kchains : (Len(d.ins[c]) + Len(d.app[c]) > 0) => c \in DOMAIN k
 
+\* nftables verdict maps (the table is Felix's): every desired map exists with exactly the desired members,
+\* no other map is left
+ConvergedAll(k, km, d) == Converged(k, d) /\ km = d.maps
+
 ForeignChains(k) == { c \in DOMAIN k : ~OurChain(c) }
 ForeignSame(k1, k2) ==
     /\ ForeignChains(k1) = ForeignChains(k2)
@@ -138,66 +149,76 @@ Target(k, d) ==
 
 \* ---- actions ----------------------------------------------------------------------------------
 Idle == ~phase.inApply
-Reset(c, k) ==
-    /\ cfg' = c /\ kernel' = k
-    /\ desired' = [chains |-> [x \in {} |-> <<>>], force |-> {}, ins |-> [x \in c.kchains |-> <<>>], app |-> [x \in c.kchains |-> <<>>]]
+ResetM(c, k, km) ==
+    /\ cfg' = c /\ kernel' = k /\ kmaps' = km
+    /\ desired' = [chains |-> [x \in {} |-> <<>>], force |-> {}, maps |-> [x \in {} |-> {}],
+                   ins |-> [x \in c.kchains |-> <<>>], app |-> [x \in c.kchains |-> <<>>]]
     /\ belief' = [stale |-> TRUE, due |-> TRUE]
     /\ phase' = [inApply |-> FALSE, readFailed |-> FALSE, envFail |-> FALSE, notified |-> FALSE, consistent |-> TRUE]
     /\ known' = {}
+Reset(c, k) == ResetM(c, k, [x \in {} |-> {}])
 
 SetChain(c, rules, force) == Idle /\ desired' = [desired EXCEPT !.chains = Put(@, c, rules),
                                                                   !.force = IF force THEN @ \cup {c} ELSE @ \ {c}]
-                      /\ UNCHANGED <<cfg, kernel, belief, phase, known>>
+                      /\ UNCHANGED <<cfg, kernel, kmaps, belief, phase, known>>
 RemoveChain(c) == Idle /\ desired' = [desired EXCEPT !.chains = Drop(@, c), !.force = @ \ {c}]
-                  /\ UNCHANGED <<cfg, kernel, belief, phase, known>>
+                  /\ UNCHANGED <<cfg, kernel, kmaps, belief, phase, known>>
 SetIns(k, rules) == Idle /\ k \in cfg.kchains /\ desired' = [desired EXCEPT !.ins[k] = rules]
-                    /\ UNCHANGED <<cfg, kernel, belief, phase, known>>
+                    /\ UNCHANGED <<cfg, kernel, kmaps, belief, phase, known>>
 SetApp(k, rules) == Idle /\ k \in cfg.kchains /\ desired' = [desired EXCEPT !.app[k] = rules]
-                    /\ UNCHANGED <<cfg, kernel, belief, phase, known>>
+                    /\ UNCHANGED <<cfg, kernel, kmaps, belief, phase, known>>
+\* AddOrReplaceMap / RemoveMap (nftables.Table only)
+SetMap(n, members) == Idle /\ desired' = [desired EXCEPT !.maps = Put(@, n, members)]
+                      /\ UNCHANGED <<cfg, kernel, kmaps, belief, phase, known>>
+RemoveMap(n) == Idle /\ desired' = [desired EXCEPT !.maps = Drop(@, n)]
+                /\ UNCHANGED <<cfg, kernel, kmaps, belief, phase, known>>
 
 \* other software (or an operator) rewrites the kernel in any way, at any time, also inside an Apply
-ExternalEdit(k) == /\ kernel' = k /\ belief' = [belief EXCEPT !.stale = TRUE]
-                   /\ UNCHANGED <<cfg, desired, phase, known>>
+ExternalEditM(k, km) == /\ kernel' = k /\ kmaps' = km /\ belief' = [belief EXCEPT !.stale = TRUE]
+                        /\ UNCHANGED <<cfg, desired, phase, known>>
+ExternalEdit(k) == ExternalEditM(k, kmaps)
 \* the configured refresh interval elapses
-Tick == Idle /\ belief' = [belief EXCEPT !.due = TRUE] /\ UNCHANGED <<cfg, desired, kernel, phase, known>>
+Tick == Idle /\ belief' = [belief EXCEPT !.due = TRUE] /\ UNCHANGED <<cfg, desired, kernel, kmaps, phase, known>>
 \* a new Felix process (new Table) on the same kernel: nothing is remembered
 Restart == /\ Idle /\ desired' = EmptyDesired /\ belief' = [stale |-> TRUE, due |-> TRUE]
-           /\ UNCHANGED <<cfg, kernel, phase, known>>
+           /\ UNCHANGED <<cfg, kernel, kmaps, phase, known>>
 
 \* Apply may be called at any time; when the caller breaks its side of the contract (a jump to an
 \* undefined chain) only the foreign-content clauses are demanded of this Apply
 ApplyBegin == /\ Idle
               /\ phase' = [inApply |-> TRUE, readFailed |-> FALSE, envFail |-> FALSE, notified |-> FALSE,
                            consistent |-> Consistent(desired)]
-              /\ UNCHANGED <<cfg, desired, kernel, belief, known>>
+              /\ UNCHANGED <<cfg, desired, kernel, kmaps, belief, known>>
 \* Felix reads the whole table (iptables-save / nft list)
 Read(ok) == /\ phase.inApply
             /\ IF ok THEN belief' = [stale |-> FALSE, due |-> FALSE] /\ UNCHANGED phase
                      ELSE phase' = [phase EXCEPT !.readFailed = TRUE, !.envFail = TRUE] /\ UNCHANGED belief
-            /\ UNCHANGED <<cfg, desired, kernel, known>>
+            /\ UNCHANGED <<cfg, desired, kernel, kmaps, known>>
 \* Felix writes (iptables-restore / nft transaction).  injected: the environment made it fail.
-Write(ok, injected, k, touched) ==
+WriteM(ok, injected, k, km, touched) ==
     /\ phase.inApply
     /\ IF ok
          THEN /\ ForeignSame(kernel, k)
               /\ (phase.consistent /\ ~belief.stale /\ ~phase.envFail) => Minimal(kernel, desired, touched)
-              /\ kernel' = k
+              /\ kernel' = k /\ kmaps' = km
               /\ UNCHANGED <<belief, phase>>
-         ELSE /\ k = kernel                                 \* a rejected command changes nothing
+         ELSE /\ k = kernel /\ km = kmaps                  \* a rejected command changes nothing
               /\ UNCHANGED belief
-              \* a rejected write is a reason to look again before this Apply completes; only a failure made by the environment excuses anything later in this Apply; a
-              \* command the kernel rejects on its merits is Felix's own doing
+              \* a rejected write is a reason to look again before this Apply completes; only a failure made by the
+              \* environment excuses anything later in this Apply; a command the kernel rejects on its merits is
+              \* Felix's own doing
               /\ phase' = [phase EXCEPT !.notified = TRUE, !.envFail = @ \/ injected]
-              /\ kernel' = kernel
+              /\ UNCHANGED <<kernel, kmaps>>
     /\ UNCHANGED <<cfg, desired, known>>
+Write(ok, injected, k, touched) == WriteM(ok, injected, k, kmaps, touched)
 ConvergenceDue == ~belief.stale \/ ((belief.due \/ phase.notified) /\ ~phase.readFailed)
 ApplyEnd(ok) ==
     /\ phase.inApply
     /\ IF ok
-         THEN /\ (phase.consistent /\ ConvergenceDue) => Converged(kernel, desired)
-              /\ known' = IF phase.consistent /\ ~belief.stale /\ Converged(kernel, desired)
+         THEN /\ (phase.consistent /\ ConvergenceDue) => ConvergedAll(kernel, kmaps, desired)
+              /\ known' = IF phase.consistent /\ ~belief.stale /\ ConvergedAll(kernel, kmaps, desired)
                             THEN known \cup { <<c, kernel[c]>> : c \in DOMAIN kernel } ELSE known
          ELSE (phase.envFail \/ ~phase.consistent) /\ UNCHANGED known
     /\ phase' = [phase EXCEPT !.inApply = FALSE]
-    /\ UNCHANGED <<cfg, desired, kernel, belief>>
+    /\ UNCHANGED <<cfg, desired, kernel, kmaps, belief>>
 =============================================================================
